@@ -9,6 +9,7 @@
 (*   upload    POST /v1/{filename=files/**}:upload  body: "file"           *)
 (*             the request body, whatever its content type, becomes        *)
 (*             file.data of one Blob whose filename is the path capture    *)
+(*             and whose note comes from the query string (?note=...)      *)
 (*                                                                         *)
 (* What the properties demand of one observed exchange:                    *)
 (*   C03  status 200 with the HttpBody's content type; a declared          *)
@@ -40,7 +41,10 @@ JudgeUpload(scn, o) ==
     (IF o.status = 200 /\ o.code = 0 THEN {} ELSE {"C03.HttpBodyStatus"})
     \cup (IF o.n = 1 /\ o.nmsgs = 1 THEN {} ELSE {"C01.HttpBodyOneMessage"})
     \cup (IF o.dataok THEN {} ELSE {"C01.HttpBodyDataIntact"})
-    \cup (IF o.ctok THEN {} ELSE {"C07.HttpBodyContentTypeBound"})
+    \* (the request message the backend sees is the body, the content type, the path capture and the query
+    \*  parameters together: losing any of them is also a request message that differs from what was sent)
+    \cup (IF o.ctok THEN {} ELSE {"C07.HttpBodyContentTypeBound", "C01.HttpBodyMessageIntact"})
+    \cup (IF o.noteok THEN {} ELSE {"C07.HttpBodyQueryBound", "C01.HttpBodyMessageIntact"})
     \cup (IF o.nameok THEN {} ELSE {"C07.HttpBodyPathBound"})
     \cup (IF o.problems = <<>> THEN {} ELSE {"C03.Framable"})
 
